@@ -41,6 +41,8 @@ def main():
     every = int(getattr(mod, "SIBLING_EVERY", 0))
     for case in cases:
         t0 = time.time()
+        if os.environ.get("VF_SELFTEST_CRASH") == str(case["case_id"]) and not os.getcwd().endswith("retry"):
+            os.abort()      # self-test of the crashed-shard retry in vf/core.py (never set by a registered command)
         rec = run(case)
         if (every and case["case_id"] % every == 0 and rec.get("status") == "ok"
                 and case.get("kind", "gen") == "gen" and "spec" in case):
